@@ -125,8 +125,13 @@ class _Instrument(trio.abc.Instrument):
     def after_task_step(self, task):
         ex = self.ex
         ex.nsteps += 1
+        if ex.nsteps == ex.step_cap // 2:
+            ex.half_mark = (ex.world.now, ex.world.opcount)
         if ex.nsteps > ex.step_cap and not ex.stepcap:
             ex.stepcap = True
+            if getattr(ex, "half_mark", None) == (ex.world.now, ex.world.opcount):
+                ex.snapshot_blocked()
+                ex.spinning = True
             if ex.root_scope is not None:
                 ex.root_scope.cancel()
         n = ex.task_steps.get(task.name, 0) + 1
@@ -287,6 +292,10 @@ def run_trio(scn, observers=()):
         res.error = "deadlock"
         res.blocked = list(getattr(ex, "blocked", None) or ())
         world.log("DEADLOCK", tuple(res.blocked))
+    elif ex.stepcap and getattr(ex, "spinning", False):
+        res.error = "deadlock"
+        res.blocked = [(n, "spin@" + str(s)) for n, s in (getattr(ex, "blocked", None) or ())]
+        world.log("LIVELOCK", tuple(res.blocked))
     elif ex.stepcap:
         res.error = "stepcap"
     res.info["steps"] = ex.nsteps
